@@ -366,8 +366,39 @@ fn respond(ident: &str, params: &str, frame: Frame) -> Option<R> {
             let items: Vec<String> = v.iter().map(|c| hs(c)).collect();
             format!("channels [{}]", items.join(","))
         }),
-        "AlbumArt" => cmds::AlbumArt::new("u").response(frame).map(show_art),
-        "AlbumArtEmbedded" => cmds::AlbumArtEmbedded::new("u").response(frame).map(show_art),
+        // the chunk in the reply is the chunk, whatever offset the request asked for (a picture may have shrunk in the meantime)
+        "AlbumArt" => {
+            let plain = cmds::AlbumArt::new("u").response(frame.clone()).map(show_art);
+            let plain_txt = match &plain { Ok(s) => format!("ok {s}"), Err(e) => err_kind(e) };
+            for off in [0usize, 1, 3, 4096, 1 << 20, usize::MAX] {
+                let f2 = frame.clone();
+                let got = match catch(move || cmds::AlbumArt::new("u").offset(off).response(f2).map(show_art)) {
+                    Err(_) => "PANIC".to_string(),
+                    Ok(Ok(s)) => format!("ok {s}"),
+                    Ok(Err(e)) => err_kind(&e),
+                };
+                if got != plain_txt {
+                    return Some(Ok(format!("INCONSISTENT AlbumArt::new(u).offset({off}).response(reply) = {} but without the offset = {}", got.replace(' ', "_"), plain_txt.replace(' ', "_"))));
+                }
+            }
+            plain
+        }
+        "AlbumArtEmbedded" => {
+            let plain = cmds::AlbumArtEmbedded::new("u").response(frame.clone()).map(show_art);
+            let plain_txt = match &plain { Ok(s) => format!("ok {s}"), Err(e) => err_kind(e) };
+            for off in [0usize, 1, 3, 4096, 1 << 20, usize::MAX] {
+                let f2 = frame.clone();
+                let got = match catch(move || cmds::AlbumArtEmbedded::new("u").offset(off).response(f2).map(show_art)) {
+                    Err(_) => "PANIC".to_string(),
+                    Ok(Ok(s)) => format!("ok {s}"),
+                    Ok(Err(e)) => err_kind(&e),
+                };
+                if got != plain_txt {
+                    return Some(Ok(format!("INCONSISTENT AlbumArtEmbedded::new(u).offset({off}).response(reply) = {} but without the offset = {}", got.replace(' ', "_"), plain_txt.replace(' ', "_"))));
+                }
+            }
+            plain
+        }
         // ---- song listings (modelled by C14): here only walked for panics
         "Queue" => cmds::Queue.response(frame).map(|v| format!("songs {} {}", v.len(), v.iter().map(show_queue_song).fold(0usize, usize::wrapping_add))),
         "QueueRange" => {
